@@ -9,13 +9,15 @@ From Orca Require Import Flat Tree TreeLower WasmP SemProofs EvalP.
 Section Sim.
 Variable ftypes : list (nat * nat).
 Variable F : nat -> flags.
+Variable X : list fop.
+Hypothesis HX : pcode X.
 
-Notation E := (exec ftypes F [] true).
+Notation E := (exec ftypes F X true).
 Notation evP := (evP ftypes).
 Notation ar := (arity ftypes).
 
 Notation bef := (bef F). Notation aft := (aft F). Notation be_ := (be_ F).
-Notation bx_ := (bx_ F). Notation sa_ := (sa_ F). Notation else_sa := (else_sa F). Notation lower := (lower F).
+Notation bx_ := (bx_ F). Notation sa_ := (sa_ F). Notation else_sa := (else_sa F). Notation lower := (lower F X).
 
 Hypothesis Hcode : forall i, pcode (bef i) /\ pcode (aft i) /\ pcode (be_ i) /\ pcode (bx_ i) /\ pcode (sa_ i).
 
@@ -93,7 +95,7 @@ Proof. reflexivity. Qed.
 (* ---------- plain instructions ---------- *)
 Lemma sim_plain f i o rest c ob B :
   IHty f ->
-  step_body ftypes F [] true (E f) false (IPlain i o :: rest) c = ob -> ob <> OFuel ->
+  step_body ftypes F X true (E f) false (IPlain i o :: rest) c = ob -> ob <> OFuel ->
   nb (IPlain i o) -> nbl rest ->
   G B (lower (IPlain i o) ++ flat_map lower rest ++ B) c ob.
 Proof.
@@ -110,6 +112,8 @@ Proof.
     intros c3 _ H3. apply Hrest, H3. }
   destruct (is_plain o) eqn:Hpl.
   { (* ordinary instruction: the default branch of the interpreter *)
+    assert (Hex : is_exit_op o = false) by (destruct o; try discriminate Hpl; reflexivity).
+    rewrite Hex. cbn [app].
     assert (Hk' : match exec_plain o c1 with
                   | ONormal c' => probes true (f_after (F i)) c' (fun c => E f false rest c)
                   | r => r end = ob).
@@ -122,8 +126,12 @@ Proof.
     - subst ob. apply G_fail; [intros; discriminate|]. apply evP_plain_stop; auto; try (intros; discriminate); try discriminate.
     - exfalso. eapply exec_plain_not_fuel; eauto.
     - subst ob. apply G_fail; [intros; discriminate|]. apply evP_plain_stop; auto; try (intros; discriminate); try discriminate. }
-  destruct o; try discriminate Hpl;
+  destruct o; try discriminate Hpl; cbn [is_exit_op app];
     try (subst ob; apply G_fail; [intros; discriminate|];
+         exists 1; split; [reflexivity|discriminate]; fail);
+    (* return / return_call / unreachable / throw: the exit probes run first *)
+    try (eapply sim_probe; [exact HX|exact Hk|exact Hn|reflexivity|];
+         intros c2 _ Hk2; clear Hk; subst ob; apply G_fail; [intros; discriminate|];
          exists 1; split; [reflexivity|discriminate]; fail).
   - (* FBr *)
     cbn [nb] in Hnb. unfold sa_pend in Hk. fold (sa_ i) in Hk. rewrite Hnb in Hk. cbn in Hk.
@@ -213,7 +221,7 @@ Proof.
 Qed.
 
 Lemma block_cps f i e bt body rest c :
-  step_body ftypes F [] true (E f) false (IBlock i e bt body :: rest) c =
+  step_body ftypes F X true (E f) false (IBlock i e bt body :: rest) c =
   probes true (bef i) c (fun c =>
     match bodyS f (aft i ++ be_ i) body (bef e ++ bx_ i) (with_stack c (firstn (fst (ar bt)) (stack c))) with
     | ONormal c4 => leaveS f e (sa_ i) rest (snd (ar bt)) (skipn (fst (ar bt)) (stack c)) [] c4
@@ -237,7 +245,7 @@ Qed.
 
 Lemma sim_block f i e bt body rest c ob B :
   IHty f ->
-  step_body ftypes F [] true (E f) false (IBlock i e bt body :: rest) c = ob -> ob <> OFuel ->
+  step_body ftypes F X true (E f) false (IBlock i e bt body :: rest) c = ob -> ob <> OFuel ->
   nbl body -> nbl rest ->
   G B (lower (IBlock i e bt body) ++ flat_map lower rest ++ B) c ob.
 Proof.
@@ -269,7 +277,7 @@ Qed.
 
 (* ---------- loops ---------- *)
 Lemma loop_cps f sb i e bt body rest c :
-  step_body ftypes F [] true (E f) sb (ILoop i e bt body :: rest) c =
+  step_body ftypes F X true (E f) sb (ILoop i e bt body :: rest) c =
   probes true (if sb then [] else bef i) c (fun c =>
     match bodyS f (aft i ++ be_ i) body (bef e ++ bx_ i) (with_stack c (firstn (fst (ar bt)) (stack c))) with
     | ONormal c4 => leaveS f e (sa_ i) rest (snd (ar bt)) (skipn (fst (ar bt)) (stack c)) [] c4
@@ -294,7 +302,7 @@ Qed.
 
 Lemma sim_loop f sb i e bt body rest c ob B :
   IHty f ->
-  step_body ftypes F [] true (E f) sb (ILoop i e bt body :: rest) c = ob -> ob <> OFuel ->
+  step_body ftypes F X true (E f) sb (ILoop i e bt body :: rest) c = ob -> ob <> OFuel ->
   nbl body -> nbl rest ->
   G B (lowerL sb (ILoop i e bt body :: rest) ++ B) c ob.
 Proof.
@@ -344,7 +352,7 @@ Definition armS (f e : nat) (sa : list fop) (rest : list instr) (nr : nat) (belo
   end.
 
 Lemma if_cps f i el e bt thn els rest c :
-  step_body ftypes F [] true (E f) false (IIf i el e bt thn els :: rest) c =
+  step_body ftypes F X true (E f) false (IIf i el e bt thn els :: rest) c =
   probes true (bef i) c (fun c =>
     match stack c with
     | [] => OTrap c
@@ -400,7 +408,7 @@ Qed.
 
 Lemma sim_if f i el e bt thn els rest c ob B :
   IHty f ->
-  step_body ftypes F [] true (E f) false (IIf i el e bt thn els :: rest) c = ob -> ob <> OFuel ->
+  step_body ftypes F X true (E f) false (IIf i el e bt thn els :: rest) c = ob -> ob <> OFuel ->
   nbl thn -> nbl els -> nbl rest ->
   G B (lower (IIf i el e bt thn els) ++ flat_map lower rest ++ B) c ob.
 Proof.
@@ -466,7 +474,7 @@ Qed.
 (* Corollary in closed form: whenever the specification interpreter produces a result, the plain
    interpreter produces the same result on the lowered body. *)
 Corollary sim_closed fuel is c ob :
-  exec ftypes F [] true fuel false is c = ob -> ob <> OFuel -> nbl is ->
+  exec ftypes F X true fuel false is c = ob -> ob <> OFuel -> nbl is ->
   exists fuel', exec ftypes (fun _ => no_flags) [] false fuel' false (flat_map lower is) c = ob.
 Proof.
   intros H Hn Hnb.
